@@ -176,8 +176,8 @@ func rtMeta(sig string, carve []string) vc.Meta {
 		Rule:        "case = one stream history of " + sig + " batches (phase scripts: random / zero-then-nonzero / nonzero-then-zero / repeat / ramp / singles / sparse-nonzero / empty-mix, or an adversarial near-identical-container template) sent through one Producer/Consumer pair; every batch decoded and compared as a canonical multiset. Non-trivial = >=2 batches, or >=1 schema update observed, or >=2 distinct containers. Distinct = distinct fingerprint (script, #batches, #containers, set of optional columns that appeared, #schema updates).",
 		Assumptions: rtAssumptions,
 		Gates: map[string]map[string]int{
-			"quick":    {"obs.schema_update": 50, "optional_columns_seen_appearing": 20, "batches": 500},
-			"thorough": {"obs.schema_update": 500, "optional_columns_seen_appearing": 22, "batches": 10000},
+			"quick":    {"obs.schema_update": 50, "optional_columns_seen_appearing": 20, "batches": 500, "near_limit_batches": 6},
+			"thorough": {"obs.schema_update": 500, "optional_columns_seen_appearing": 22, "batches": 10000, "near_limit_batches": 18},
 		},
 		Excluded: carve,
 	}
@@ -202,6 +202,22 @@ func runRoundTrip(t *testing.T, prop string, sig canon.Signal) {
 		if c.Idx < 64 {
 			c.Sample(map[string]any{"script": h.Script, "batches": h.Len(), "first_batch": clip(h.At(0).JSON(), 600)})
 		}
+	})
+	// batches close to the protocol's id width: 32,768 / 45,000 / 65,535 attribute-bearing items are inside
+	// the domain (<= 65,535 parents per table) and must round-trip, as the first batch of a stream (schema
+	// updates force the record to be built several times) and again as a second batch with fresh values
+	r.Layer("near-limit", e.Pick(3, 9), func(c *vc.Case) {
+		n := []int{32768, 45000, 65535}[c.Idx%3]
+		h := RampHistory(c.R, sig, 2, n, (c.Idx/3)%2 == 1)
+		h.Script = fmt.Sprintf("near-limit(%d items per batch)", n)
+		o := DefaultOpts()
+		if c.Idx >= 3 {
+			o = RandomOpts(c.R)
+			o.Limit = []string{"default", "16", "32"}[c.R.IntN(3)]
+		}
+		roundTripHistory(c, h, o, prop)
+		c.Count("near_limit_batches", int64(h.Len()))
+		c.Sample(map[string]any{"script": h.Script, "options": o.String()})
 	})
 	r.Layer("big", e.Pick(6, 30), func(c *vc.Case) {
 		g := gen.New(c.R, gen.DValid)
